@@ -115,6 +115,10 @@ func (h *handler1) run(ctx context.Context, snConn net.Conn) {
 	h.log.Debug("Handler starts.")
 	defer h.log.Debug("Handler quits.")
 
+	// All handler's goroutines must quit on every return from this function.
+	ctx, cancel := context.WithCancel(ctx)
+	defer cancel()
+
 	var groupCtx context.Context
 	h.group, groupCtx = errgroup.WithContext(ctx)
 
@@ -162,6 +166,8 @@ func (h *handler1) run(ctx context.Context, snConn net.Conn) {
 			if err := h.snSend(snPkt); err != nil {
 				h.log.Error("Error sending CONNACK to a connection: %s", err)
 			}
+			cancel()
+			_ = h.group.Wait()
 			return
 		}
 	}
